@@ -102,6 +102,10 @@ Definition row_get (r : row) (c : name) : cell :=
 Inductive result (A : Type) : Type := Ok (a : A) | Err (e : string).
 Arguments Ok {A} a.
 Arguments Err {A} e.
+(* exception class names, as the harness reports them *)
+Definition StopIteration : string := "StopIteration".
+Definition IllegalArgumentException : string := "IllegalArgumentException".
+Definition NotImplementedError : string := "NotImplementedError".
 
 (* ------------------------------------------------------------------------------------------ *)
 (** * rdd.py: the keyed join family on flattened pair lists *)
@@ -255,9 +259,9 @@ Definition merge_schemas (ls rs : schema) (h : how) (on : list name) : result sc
             | OnLeftNullable => map (fun f => mkField 0 (fname f) (ftype f) true) lof   (* fresh, unbound fields *)
             end in
           Ok (on_fields ++ other_left ++ (if schema_drops_right h then [] else other_right))
-      | None => Err "IllegalArgumentException"
+      | None => Err IllegalArgumentException
       end
-  | _, _ => Err "StopIteration"
+  | _, _ => Err StopIteration
   end.
 
 (* ------------------------------------------------------------------------------------------ *)
@@ -302,9 +306,9 @@ Definition merge_joined (ls rs : schema) (h : how) (on : list name) (left right 
           let right_parts := match right' with Some r => other_parts rs rof r | None => [] end in
           Ok (row_from_keyed_values (on_parts ++ left_parts ++ right_parts))
       | Some false => Ok (row_from_keyed_values (on_parts ++ left_parts))
-      | None => Err "IllegalArgumentException"
+      | None => Err IllegalArgumentException
       end
-  | _, _ => Err "StopIteration"
+  | _, _ => Err StopIteration
   end.
 
 (* ------------------------------------------------------------------------------------------ *)
@@ -340,7 +344,7 @@ Definition join_on_values (l r : table) (on : list name) (h : how) : result (lis
       let joined_rdd := rdd_join_by key_eqb m keyed_self keyed_other in
       sequence (map (fun e => merge_joined (t_schema l) (t_schema r) h on (fst (snd e)) (snd (snd e)))
                     joined_rdd)
-  | None => Err "IllegalArgumentException"
+  | None => Err IllegalArgumentException
   end.
 
 Definition cross_join_rows (l r : table) : list row :=
@@ -355,7 +359,7 @@ Definition internal_join (l r : table) (on : option (list name)) (h : how) : res
         | Ok s => Ok (s, cross_join_rows l r)
         | Err e => Err e
         end
-      else Err "NotImplementedError"      (* `on` is a Column expression otherwise: not modelled, never generated *)
+      else Err NotImplementedError      (* `on` is a Column expression otherwise: not modelled, never generated *)
   | Some on =>
       match merge_schemas (t_schema l) (t_schema r) h on with
       | Ok s => match join_on_values l r on h with
@@ -383,11 +387,11 @@ Fixpoint lookup_how (s : name) (tbl : list (name * how)) : option how :=
 Definition df_join (l r : table) (on : on_arg) (how_str : name) : result (schema * list row) :=
   let on := match on with OnNone => None | OnStr c => Some [c] | OnList cs => Some cs end in
   match lookup_how (normalise_how how_str) join_types with
-  | None => Err "IllegalArgumentException"
+  | None => Err IllegalArgumentException
   | Some h =>
       match on with
-      | Some _ => if how_eqb h CROSS_JOIN then Err "IllegalArgumentException" else internal_join l r on h
-      | None => if how_eqb h CROSS_JOIN then internal_join l r None h else Err "IllegalArgumentException"
+      | Some _ => if how_eqb h CROSS_JOIN then Err IllegalArgumentException else internal_join l r on h
+      | None => if how_eqb h CROSS_JOIN then internal_join l r None h else Err IllegalArgumentException
       end
   end.
 
